@@ -224,7 +224,10 @@ def cmp_c18(case, got):
     def txt(hs):
         return [bytes.fromhex(h).decode("utf-8", "replace") for h in hs]
     if got["argv"] != got["expected_argv"]:
-        bad.append(("%s command %s: the child received %r, expected %r" % (case["cmd"]["kind"], case["cmd"], txt(got["argv"]), txt(got["expected_argv"])),
+        if case["cmd"]["kind"] == "cli":
+            bad.append(("command line %r: the %s received %r, expected %r" % (got.get("cli_argv"), "program" if case["cmd"]["shell"] in ("none", "n") else "shell", txt(got["argv"]), txt(got["expected_argv"])), "argv:cli"))
+        else:
+          bad.append(("%s command %s: the child received %r, expected %r" % (case["cmd"]["kind"], case["cmd"], txt(got["argv"]), txt(got["expected_argv"])),
                     "argv:" + case["cmd"]["kind"]))
     p = case["place"]
     if got["own_group"] != p["own_group"] or (not p["own_group"] and not got["parent_group"]):
@@ -265,7 +268,7 @@ SPECS = {
     "C18": dict(
         module="SpawnArgv.tla", runner="spawn", cmp=cmp_c18, nontrivial=lambda c: len(c["argv"]) >= 1,
         cfgs=dict(quick=["SpawnArgv.cfg"], thorough=["SpawnArgv.cfg"]), quick_cap=1500,
-        always=lambda c: c.get("via", "start") != "start" or "+" in c["mode"],
+        always=lambda c: c.get("via", "start") != "start" or "+" in c["mode"] or c["cmd"]["kind"] == "cli",
         rule="commands with at least one argument; distinct by (command shape, spawn option); tokens are bound to one of six families of awkward strings per case (empty, spaces and tabs, quotes, $ ` $( ), glob characters, newline, backslash, shell operators, multi-byte text, option look-alikes)",
         exhaustive=True,
         assumptions=["SpawnArgv.tla: argument vectors of up to 3 tokens, shells with up to 2 options, with / without a program option, up to 2 extra arguments, the three basic spawn options for all and every combination of grouped / session / reset_sigmask for the short commands",
